@@ -77,6 +77,13 @@ func layoutForm(r *rng, v MalType, crlf bool) string {
 			return seq("(", ")", t.Val)
 		case Vector:
 			return seq("[", "]", t.Val)
+		case string:
+			if !strings.HasPrefix(t, "\u029e") {
+				// the program text is written by the harness' own escaping (backslash, quote, newline — what the
+				// reader undoes), not by the printer under test: the routes must not inherit a printer defect
+				return "\"" + strings.NewReplacer("\\", "\\\\", "\"", "\\\"", "\n", "\\n").Replace(t) + "\""
+			}
+			return lisp.PRINT(v)
 		default:
 			return lisp.PRINT(v)
 		}
@@ -103,6 +110,13 @@ func (e *routesEngine) generate(r *rng, n int, tier string, emit func(string)) {
 			}[r.intn(5)]
 			forms = append(forms, ls(sy("def"), sy("caught"), ls(sy("try"), bad, ls(sy("catch"), sy("e"), call1("str", sy("e"))))))
 			names = append(names, "caught")
+		}
+		if r.chance(1, 4) {
+			// `$` is an ordinary identifier character outside a preamble transport; strings with TAB / CR / other
+			// characters a printer might escape differently must mean the same on every route
+			forms = append(forms, ls(sy("def"), sy("$rate"), 3), ls(sy("def"), sy("usd"), call1("list", call1("+", sy("$rate"), 1), call1("quote", ls(sy("$a"), sy("$b"))))),
+				ls(sy("def"), sy("strs"), call1("str", "col1\tcol2", "cr\rx", "nb\u00a0sp", "q\"b\\s", "nl\nx")))
+			names = append(names, "$rate", "usd", "strs")
 		}
 		crlf := r.chance(1, 5)
 		nl := "\n"
